@@ -85,6 +85,9 @@ pub struct SinkPlan {
     pub faults: Vec<Fault>,
     /// total bytes the "disk" can hold; afterwards StorageFull forever
     pub disk_capacity: Option<usize>,
+    /// from this call on the chunk cap is replaced by the given one (a sink whose behaviour changes
+    /// in the middle of one write: a pipe that fills up, a socket whose window opens)
+    pub cap_switch: Option<(u64, Option<usize>)>,
 }
 
 impl SinkPlan {
@@ -92,6 +95,7 @@ impl SinkPlan {
         json!({
             "cap": self.cap,
             "disk_capacity": self.disk_capacity,
+            "cap_switch": self.cap_switch.map(|(at, c)| json!({"at": at, "cap": c})),
             "faults": self.faults.iter().map(|f| match f.kind {
                 FaultKind::Short(r) => json!({"at": f.at, "kind": "short", "r": r}),
                 FaultKind::Interrupted(b) => json!({"at": f.at, "kind": "interrupted", "burst": b}),
@@ -104,6 +108,7 @@ impl SinkPlan {
         let mut p = SinkPlan {
             cap: v.get("cap").and_then(|x| x.as_u64()).map(|x| x as usize),
             disk_capacity: v.get("disk_capacity").and_then(|x| x.as_u64()).map(|x| x as usize),
+            cap_switch: v.get("cap_switch").filter(|x| !x.is_null()).and_then(|x| Some((x.get("at")?.as_u64()?, x.get("cap").and_then(|c| c.as_u64()).map(|c| c as usize)))),
             faults: Vec::new(),
         };
         for f in v.get("faults")?.as_array()? {
@@ -165,7 +170,8 @@ impl SinkPlan {
         }
         let disk_capacity = if rng.chance(1, 8) { Some(rng.usize_below(len_hint + 1)) } else { None };
         faults.sort_by_key(|f| f.at);
-        SinkPlan { cap, faults, disk_capacity }
+        let cap_switch = if rng.chance(1, 5) { Some((rng.below(calls), *rng.pick(&[None, Some(1usize), Some(3), Some(4096)]))) } else { None };
+        SinkPlan { cap, faults, disk_capacity, cap_switch }
     }
 }
 
@@ -318,7 +324,11 @@ impl<'p> SimSink<'p> {
             }
             n = n.min(remaining);
         }
-        if let Some(k) = self.plan.cap {
+        let cap_now = match self.plan.cap_switch {
+            Some((at, c)) if idx >= at => c,
+            _ => self.plan.cap,
+        };
+        if let Some(k) = cap_now {
             if n > k {
                 n = k;
                 self.fired.capped_calls += 1;
